@@ -306,8 +306,22 @@ package store
 //@   props C04, C05
 //@   local sdb *store.DbSqlite#1
 //@   local tx *sql.Tx#1
-//@   local stmt *sql.Stmt#1
 //@   requires sdb != nil && tx != nil && txOpen(tx) && txDb(tx) == sdb.db && acyclic(sdb)
+//@   modifies state(sdb.db)
+//@   ensures [C04] txOpen(tx) && dbKept(sdb.db) && (res0 == nil ==> noFail(sdb.db))
+//@ func (*DbSqlite).updateEdgeHash
+//@   props C04, C05
+//@   local sdb *store.DbSqlite#1
+//@   local tx *sql.Tx#1
+//@   requires sdb != nil && tx != nil && txOpen(tx) && txDb(tx) == sdb.db && acyclic(sdb)
+//@   modifies state(sdb.db)
+//@   ensures [C04] txOpen(tx) && dbKept(sdb.db) && (res0 == nil ==> noFail(sdb.db))
+//@ func (*DbSqlite).writeHashes
+//@   props C04, C05
+//@   local sdb *store.DbSqlite#1
+//@   local tx *sql.Tx#1
+//@   local stmt *sql.Stmt#1
+//@   requires sdb != nil && tx != nil && txOpen(tx) && txDb(tx) == sdb.db
 //@   modifies state(sdb.db)
 //@   ensures [C04] txOpen(tx) && dbKept(sdb.db) && (res0 == nil ==> noFail(sdb.db))
 //@   loop 1:
@@ -426,6 +440,7 @@ package store
 //@   local j int#1
 //@   local stmt *sql.Stmt#1
 //@   local i int#2
+//@   local children []data.Edge#2
 //@   assert [C01] whole-batch-merged: forall k int :: triggers(mustW(dbPoints, points, k)) ==> (0 <= k && k < len(points) && points[k].Type != "nodeType" && mustW(dbPoints, points, k) ==> (exists w int :: 0 <= w && w < len(writePoints) && fromBatch(writePoints[w], points[k]))) at "tx.Prepare(`INSERT INTO edge_points(id, edge_id, type, key, time, idx, value, text, data, tombstone, origin) VALUES(?, ?, ?, ?, ?, ?, ?, ?, ?, ?, ?) ON CONFLICT(id) DO UPDATE SET type = ?3, key = ?4, time = ?5, idx = ?6, value = ?7, text = ?8, data = ?9, tombstone = ?10, origin = ?11 `)"
 //@   assert [C01] row-written: i == rangeindex5 && p == writePoints[i] && pID == writePointIDs[i] at "stmt.Exec(pID, edge.ID, p.Type, p.Key, tNs, 0, p.Value, p.Text, p.Data, p.Tombstone, p.Origin)"
 //@   requires sdb != nil && sdb.db != nil && acyclic(sdb)
@@ -477,6 +492,9 @@ package store
 //@     decreases len(writePoints) - rangeindex
 //@   loop 6:
 //@     invariant txOpen(tx) && txDb(tx) == sdb.db && openTxs(sdb.db) == old(openTxs(sdb.db)) + 1 && commits(sdb.db) == old(commits(sdb.db)) && noFail(sdb.db)
+//@   loop 7:
+//@     invariant -1 <= rangeindex && rangeindex < len(children) || rangeindex == -1
+//@     decreases len(children) - rangeindex
 
 // C04: the journal and synchronisation modes the crash guarantee rests on (SQLite: WAL + synchronous=NORMAL keeps
 // committed transactions across a process crash) are the reviewed ones.
